@@ -230,7 +230,7 @@ func signedInvalid(t *rapid.T) PartialCase {
 	return PartialCase{Entry: "router_info.ReadRouterInfo", Hex: ev.H(m.Encode()), Cut: -1, How: "signed and complete, violates: " + rule}
 }
 
-var propPartial = &ev.Prop[PartialCase]{Sub: "partial", Quick: 4000, Thorough: 200000,
+var propPartial = &ev.Prop[PartialCase]{Sub: "partial", Quick: 4000, Thorough: 80000,
 	Gen: func(t *rapid.T) PartialCase {
 		if rapid.IntRange(0, 5).Draw(t, "signedinvalid") == 0 {
 			return signedInvalid(t)
